@@ -266,4 +266,146 @@ func init() {
 				c.Dom("new-selection-when-none", nc, BoolCond(IsLoadOf(sel), false), "!selected")
 			}
 		}})
+
+	register(&Rule{ID: "C17.R7", Props: []string{"C17", "C04"}, Engine: "E3",
+		Title:   "the peer's capabilities are recomputed from every INIT / INIT-ACK: each peer flag is unconditionally reset before the parameters are parsed, so a later handshake packet without the extension really turns it off",
+		MinInst: 6,
+		Run: func(c *RuleCtx) {
+			upd := c.Fn("Association.updateInterleavingState")
+			for _, hn := range []string{"Association.handleInit", "Association.handleInitAck"} {
+				fn := c.Fn(hn)
+				calls := callsIn(fn, upd)
+				if len(calls) != 1 {
+					c.Fail("negotiation-finalised@"+hn, c.P.Pos(fn.Pos()), fmt.Sprintf("%d updateInterleavingState calls", len(calls)))
+					continue
+				}
+				for _, fname := range []string{"peerInterleaving", "peerForwardTSN", "peerIForwardTSN"} {
+					f := c.field("Association", fname)
+					ok := false
+					// a dominating store whose value does not depend on the old flag; callees count if they always store it
+					forEachInstr(fn, func(in ssa.Instruction) {
+						if !InstrDominates(in, calls[0]) {
+							return
+						}
+						switch x := in.(type) {
+						case *ssa.Store:
+							if fieldOfAddr(x.Addr) == f && !Derives(IsLoadOf(f))(x.Val) {
+								ok = true
+							}
+						case *ssa.Call:
+							if sc := x.Call.StaticCallee(); sc != nil && c.P.inPkg(sc) && sc.Blocks != nil {
+								// callee stores f on every path, independent of the old value
+								if entryMustPass(sc, func(y ssa.Instruction) bool {
+									st, isSt := y.(*ssa.Store)
+									return isSt && fieldOfAddr(st.Addr) == f && !Derives(IsLoadOf(f))(st.Val)
+								}) {
+									ok = true
+								}
+							}
+						}
+					})
+					c.Check(ok, "peer-flag-reset:"+fname+"@"+hn, c.P.Pos(fn.Pos()), "flag is unconditionally (re)set before negotiation is finalised",
+						"flag "+fname+" keeps its value from an earlier handshake packet when this one does not carry the extension: the two sides can end up with different framing")
+				}
+			}
+		}})
+
+	register(&Rule{ID: "C17.R8", Props: []string{"C17"}, Engine: "E3-shape",
+		Title:   "scheduler tag arithmetic (a necessary condition of the fairness clauses, which are themselves not decided): WFQ stamps a chunk with max(virtualTime, streamFinish)+len/weight, serves the smallest finish tag and advances virtual time monotonically; round-robin rotates the served stream to the back of the order",
+		MinInst: 6,
+		Run: func(c *RuleCtx) {
+			push := c.Fn("weightedFairQueueingPendingQueuePolicy.Push")
+			vt := c.field("weightedFairQueueingPendingQueuePolicy", "virtualTime")
+			sf := c.field("weightedFairQueueingPendingQueuePolicy", "streamFinish")
+			// start := math.Max(q.virtualTime, q.streamFinish[id])
+			var start ssa.Value
+			forEachInstr(push, func(in ssa.Instruction) {
+				if call, ok := isMathCall(valueOf(in), "Max"); ok {
+					a0, a1 := call.Call.Args[0], call.Call.Args[1]
+					isFin := func(v ssa.Value) bool {
+						lk, ok := v.(*ssa.Lookup)
+						return ok && IsLoadOf(sf)(lk.X)
+					}
+					if (IsLoadOf(vt)(a0) && isFin(a1)) || (IsLoadOf(vt)(a1) && isFin(a0)) {
+						start = call
+					}
+				}
+			})
+			c.Check(start != nil, "wfq-start-tag", c.P.Pos(push.Pos()), "start = max(virtualTime, streamFinish[stream])", "WFQ start tag is not max(virtualTime, streamFinish[stream]): a stream returning from idle keeps stale tags and starves backlogged streams")
+			// finish = start + len/weight stored to both maps
+			okFin := false
+			forEachInstr(push, func(in ssa.Instruction) {
+				mu, ok := in.(*ssa.MapUpdate)
+				if !ok || !IsLoadOf(sf)(mu.Map) {
+					return
+				}
+				if b, ok := mu.Value.(*ssa.BinOp); ok && b.Op == token.ADD && start != nil && b.X == start {
+					if q, ok := b.Y.(*ssa.BinOp); ok && q.Op == token.QUO {
+						okFin = true
+					}
+				}
+			})
+			c.Check(okFin, "wfq-finish-tag", c.P.Pos(push.Pos()), "streamFinish[stream] = start + len/weight", "WFQ finish tag is not start + len/weight")
+			// weight defaults to 1
+			okW := false
+			forEachInstr(push, func(in ssa.Instruction) {
+				if phi, ok := in.(*ssa.Phi); ok {
+					for _, e := range phi.Edges {
+						if k, ok := e.(*ssa.Const); ok && k.Value != nil && k.Value.String() == "1" {
+							okW = true
+						}
+					}
+				}
+			})
+			c.Check(okW, "wfq-weight-default", c.P.Pos(push.Pos()), "an unset weight counts as 1", "zero weight is not defaulted (division by zero → +Inf tags)")
+			pop := c.Fn("weightedFairQueueingPendingQueuePolicy.Pop")
+			okV := false
+			for _, a := range c.storesIn(pop, vt) {
+				if call, ok := isMathCall(a.Val, "Max"); ok && (IsLoadOf(vt)(call.Call.Args[0]) || IsLoadOf(vt)(call.Call.Args[1])) {
+					okV = true
+				}
+			}
+			c.Check(okV, "wfq-virtual-time-monotone", c.P.Pos(pop.Pos()), "virtualTime = max(virtualTime, finish of the served chunk)", "virtual time can move backwards")
+			peek := c.Fn("weightedFairQueueingPendingQueuePolicy.Peek")
+			okMin := false
+			forEachInstr(peek, func(in ssa.Instruction) {
+				if b, ok := in.(*ssa.BinOp); ok && b.Op == token.LSS {
+					if _, isLk := b.X.(*ssa.Lookup); isLk {
+						okMin = true
+					}
+				}
+			})
+			c.Check(okMin, "wfq-serves-min-finish", c.P.Pos(peek.Pos()), "Peek selects the smallest finish tag", "Peek no longer selects the smallest finish tag")
+			// round robin
+			rr := c.Fn("roundRobinPendingQueuePolicy.Pop")
+			so := c.field("roundRobinPendingQueuePolicy", "streamOrder")
+			nFront, nBack := 0, 0
+			for _, a := range c.storesIn(rr, so) {
+				if sl, ok := a.Val.(*ssa.Slice); ok && sl.Low != nil && IsConstInt(1)(sl.Low) {
+					nFront++
+				}
+				if call, ok := a.Val.(*ssa.Call); ok {
+					if b, ok := call.Call.Value.(*ssa.Builtin); ok && b.Name() == "append" {
+						nBack++
+						c.Dom("rr-requeue-if-backlogged", a.Instr, CmpCond(token.GTR, IsCallOf(c.Fn("pendingBaseQueue.size")), IsConstInt(0)), "stream still has queued chunks")
+					}
+				}
+			}
+			c.Check(nFront == 1 && nBack == 1, "rr-rotates", c.P.Pos(rr.Pos()), "served stream leaves the front and re-enters at the back", fmt.Sprintf("rotation changed: front=%d back=%d", nFront, nBack))
+			sel := c.field("roundRobinPendingQueuePolicy", "streamSelected")
+			okClr := false
+			for _, a := range c.storesIn(rr, sel) {
+				if IsConstBool(false)(a.Val) {
+					okClr = true
+				}
+			}
+			c.Check(okClr, "rr-one-chunk-per-turn", c.P.Pos(rr.Pos()), "the selection is dropped after every chunk", "a stream keeps the turn for more than one chunk")
+		}})
+}
+
+func valueOf(in ssa.Instruction) ssa.Value {
+	if v, ok := in.(ssa.Value); ok {
+		return v
+	}
+	return nil
 }
